@@ -6,6 +6,7 @@ import (
 	"errors"
 	"fmt"
 	"io"
+	"os"
 	"testing"
 	"testing/cryptotest"
 
@@ -48,6 +49,17 @@ type pipeStreams struct {
 
 var lastLive *liveWorld
 var lastObs []*connObs
+
+// errReadTimeout is what a transport returns when a read deadline set by the
+// caller expires.
+var errReadTimeout error = &timeoutErr{}
+
+type timeoutErr struct{}
+
+func (*timeoutErr) Error() string   { return "i/o timeout (read deadline)" }
+func (*timeoutErr) Timeout() bool   { return true }
+func (*timeoutErr) Temporary() bool { return true }
+func (*timeoutErr) Unwrap() error   { return os.ErrDeadlineExceeded }
 
 func isHRR(rec []byte) bool {
 	return len(rec) >= 5+4+2+32 && rec[0] == 22 && rec[5] == 2 && bytes.Equal(rec[11:43], echbox.HRRRandom)
@@ -96,6 +108,7 @@ type pipeRun struct {
 	writeErr   error
 	writeBad   string
 	zeroSpins  int
+	closes     int // Close calls on the transport made by the Conn
 }
 
 // replay drives one fresh Conn over the streams.
@@ -263,6 +276,7 @@ func (ps *pipeStreams) replayX(chunks []int, readBuf int, cutAt int, cutErr erro
 		pr.panicMsg, pr.panicSite = msg, site
 	}
 	pr.out = sc.Out
+	pr.closes = sc.Closes
 	return pr
 }
 
@@ -436,15 +450,15 @@ func executePipe(t *testing.T, prop string, seed uint64, p *PipePlan) *core.Resu
 			if p.Only != nil {
 				k = *p.Only
 			}
-			for ei, cerr := range []error{nil, simnet.ErrReset} {
+			for ei, cerr := range []error{nil, simnet.ErrReset, errReadTimeout} {
 				// the caller's buffer size rotates with the offset (a small buffer
 				// drains a pending partial record in several calls)
 				// ... and the transport reports the error either on a Read of its own
 				// or together with the last bytes (io.Reader allows both)
 				pr := ps.replayX(nil, []int{0, 1, 7, 300}[(k+ei)%4], k, cerr, nil, -1, (k/4)%2 == 1)
 				res.Evals++
-				res.Fault([]string{simnet.CutEOF, simnet.CutRST}[ei])
-				what := fmt.Sprintf("transport %s after %d of %d bytes", []string{"EOF", "error"}[ei], k, len(ps.c))
+				res.Fault([]string{simnet.CutEOF, simnet.CutRST, "read-timeout"}[ei])
+				what := fmt.Sprintf("transport %s after %d of %d bytes", []string{"EOF", "error", "read timeout"}[ei], k, len(ps.c))
 				res.Sigs = append(res.Sigs, ps.cutSig(k, ei, seed))
 				if pr.panicMsg != "" {
 					hint(k)
@@ -479,6 +493,13 @@ func executePipe(t *testing.T, prop string, seed uint64, p *PipePlan) *core.Resu
 				}
 				if k < len(ps.c) && k > 0 {
 					res.Probe("cut_mid_stream")
+				}
+				// the other direction is none of the failed read's business: the
+				// backend's bytes (written after the cut) reach the client, and
+				// nothing else does
+				if pr.writeErr != nil || pr.writeBad != "" || !bytes.Equal(pr.out, ps.b) || pr.closes > 0 {
+					hint(k)
+					res.Fail(prop, "cut", "backend->client direction disturbed by the end / failure of the client->backend direction", "%s: write err=%v %s, client received %d bytes (backend wrote %d), transport closed %d times by the Conn", what, pr.writeErr, pr.writeBad, len(pr.out), len(ps.b), pr.closes)
 				}
 			}
 			if p.Only != nil {
